@@ -55,4 +55,156 @@ Ltac split_and :=
   | H : _ && _ = true |- _ => apply andb_prop in H; destruct H
   end.
 
+Ltac vstep Hev Hevs Hevo HA n :=
+  match goal with
+  | H : ROk _ = ROk _ |- _ => exact H
+  | H : rbind (eval N P n ?s ?mu ?C ?a) _ = ROk _ |- rbind (eval N P (n + K) ?s ?mu ?C ?a') _ = _ =>
+      let E := fresh "E" in let H' := fresh "H" in let v := fresh "v" in let m := fresh "m" in
+      destruct (rbind_ok _ _ _ _ _ H) as ([v m] & E & H'); clear H;
+      match goal with Hv : _ = true |- _ => rewrite (Hev _ a a' s mu C _ Hv HA E) end; cbn [rbind]
+  | H : rbind (evals N P n ?s ?mu ?C ?a) _ = ROk _ |- rbind (evals N P (n + K) ?s ?mu ?C ?a') _ = _ =>
+      let E := fresh "E" in let H' := fresh "H" in let v := fresh "v" in let m := fresh "m" in
+      destruct (rbind_ok _ _ _ _ _ H) as ([v m] & E & H'); clear H;
+      match goal with Hv : _ = true |- _ => rewrite (Hevs _ a a' s mu C _ Hv HA E) end; cbn [rbind]
+  | H : rbind (eval_opt N P n ?s ?mu ?C ?a) _ = ROk _ |- rbind (eval_opt N P (n + K) ?s ?mu ?C ?a') _ = _ =>
+      let E := fresh "E" in let H' := fresh "H" in let v := fresh "v" in let m := fresh "m" in
+      destruct (rbind_ok _ _ _ _ _ H) as ([v m] & E & H'); clear H;
+      match goal with Hv : _ = true |- _ => rewrite (Hevo _ a a' s mu C _ Hv HA E) end; cbn [rbind]
+  | H : rbind (value_eq N n ?mu ?a ?b) _ = ROk _ |- _ =>
+      let E := fresh "E" in let H' := fresh "H" in let v := fresh "v" in
+      destruct (rbind_ok _ _ _ _ _ H) as (v & E & H'); clear H;
+      rewrite (value_eq_mono_ok n (n + K) mu a b _ E ltac:(lia)); cbn [rbind]
+  | H : rbind (dim_of n ?mu ?a) _ = ROk _ |- _ =>
+      let E := fresh "E" in let H' := fresh "H" in let v := fresh "v" in
+      destruct (rbind_ok _ _ _ _ _ H) as (v & E & H'); clear H;
+      rewrite (dim_of_mono_ok n (n + K) mu a _ E ltac:(lia)); cbn [rbind]
+  | H : rbind ?x _ = ROk _ |- rbind ?x _ = _ =>
+      destruct x; cbn [rbind] in *; [ | discriminate H | discriminate H ]
+  | H : match ?x with _ => _ end = ROk _ |- match ?x with _ => _ end = _ => destruct x; try discriminate H
+  | H : (if ?x then _ else _) = ROk _ |- (if ?x then _ else _) = _ => destruct x; try discriminate H
+  | H : (let '(_, _) := ?x in _) = ROk _ |- _ => destruct x
+  end.
+
+
+Ltac more_eq :=
+  split_and; eqb_more;
+  repeat match goal with
+  | H : ctx_eqb_syn _ _ = true |- _ => apply ctx_eqb_syn_eq in H
+  | H : ctor_eqb _ _ = true |- _ => apply ctor_eqb_eq in H
+  | H : pat_eqb _ _ = true |- _ => apply pat_eqb_eq in H
+  end; subst.
+
+Lemma vx_step : forall n, vx_at n -> vx_at (S n).
+Proof.
+  intros n (Hev & Hevs & Hevo & Hcmp & Hbool & Hcomp & Hcl).
+  unfold vx_at. repeat split.
+  - (* eval *)
+    intros bvs e e' s mu C r Hv HA H.
+    destruct (leaf bvs e e') eqn:L; [eapply leaf_ok; eassumption|].
+    change (S n + K)%nat with (S (n + K)).
+    destruct e; cbn [vexpr] in Hv; rewrite L in Hv; cbn [orb] in Hv.
+    all: try match goal with
+         | H : eval N P (S _) _ _ _ (EIf ?c ?a ?b) = ROk _ |- _ =>
+             apply orb_prop in Hv; destruct Hv as [Hk|Hv];
+             [ rewrite eval_S in H; unfold eval_body in H;
+               destruct (rbind_ok _ _ _ _ _ H) as ([vc m] & E & H'); clear H;
+               destruct (kb bvs c) as [[|]|] eqn:Kb; try discriminate Hk;
+               destruct (kb_ok _ _ _ _ _ _ _ _ _ Kb HA E) as [-> ->]; cbn [as_bool rbind] in H';
+               (eapply eval_mono_ok; [eapply Hev; eassumption | lia])
+             | ]
+         end.
+    all: rewrite eval_S in *; unfold eval_body in *.
+    all: destruct e'; try discriminate Hv; more_eq;
+         try solve [ repeat vstep Hev Hevs Hevo HA n ].
+    + (* ECompare *)
+      destruct args as [|a rest]; [discriminate|]. destruct args0 as [|a' rest']; [discriminate|]. split_and.
+      vstep Hev Hevs Hevo HA n. eapply Hcmp; eassumption.
+    + eapply Hbool; eassumption.
+    + eapply Hbool; eassumption.
+    + (* EIf *)
+      vstep Hev Hevs Hevo HA n.
+      destruct (as_bool v) as [t| |]; cbn [rbind] in *; try discriminate.
+      destruct t; eapply Hev; eassumption.
+    + (* EComp *)
+      destruct (rbind_ok _ _ _ _ _ H) as ([vs m] & E & H'). clear H.
+      rewrite (Hcomp bvs gens gens0 e e' s mu C _ Hv HA E). cbn [rbind]. exact H'.
+    + (* ECall *)
+      destruct (lookup_fn P f0) as [fn|]; [|discriminate].
+      vstep Hev Hevs Hevo HA n. eapply call_mono_ok; [eassumption | lia].
+  - (* evals *)
+    intros bvs es es' s mu C r Hv HA H.
+    change (S n + K)%nat with (S (n + K)). rewrite evals_S in *. unfold evals_body in *.
+    destruct es as [|e es], es' as [|e' es']; try discriminate Hv; [exact H|].
+    cbn [vexprs] in Hv. split_and.
+    repeat vstep Hev Hevs Hevo HA n.
+  - (* eval_opt *)
+    intros bvs e e' s mu C r Hv HA H.
+    change (S n + K)%nat with (S (n + K)). rewrite eval_opt_S in *. unfold eval_opt_body in *.
+    destruct e as [e|], e' as [e'|]; try discriminate Hv; [|exact H].
+    cbn [voexpr] in Hv. repeat vstep Hev Hevs Hevo HA n.
+  - (* cmp_chain *)
+    intros bvs args args' s mu C v ops r Hv HA H.
+    change (S n + K)%nat with (S (n + K)). rewrite cmp_chain_S in *. unfold cmp_chain_body in *.
+    destruct ops as [|o ops'].
+    + destruct args, args'; try discriminate Hv; exact H.
+    + destruct args as [|e args], args' as [|e' args']; try discriminate Hv; try discriminate H.
+      cbn [vexprs] in Hv. split_and.
+      destruct (is_ordering o).
+      * destruct (as_num v) as [x| |]; cbn [rbind] in *; try discriminate.
+        vstep Hev Hevs Hevo HA n.
+        destruct (as_num v0) as [y| |]; cbn [rbind] in *; try discriminate.
+        destruct (cmp_test N o x y); [|assumption].
+        destruct ops'; [assumption|]. eapply Hcmp; eassumption.
+      * vstep Hev Hevs Hevo HA n. vstep Hev Hevs Hevo HA n.
+        destruct (match o with CNe => negb v1 | _ => v1 end); [|assumption].
+        destruct ops'; [assumption|]. eapply Hcmp; eassumption.
+  - (* bool_chain *)
+    intros bvs args args' s mu C u r Hv HA H.
+    change (S n + K)%nat with (S (n + K)). rewrite bool_chain_S in *. unfold bool_chain_body in *.
+    destruct args as [|e args], args' as [|e' args']; try discriminate Hv; [exact H|].
+    cbn [vexprs] in Hv. split_and.
+    vstep Hev Hevs Hevo HA n.
+    destruct (as_bool v) as [b| |]; cbn [rbind] in *; try discriminate.
+    destruct (Bool.eqb b u); [|assumption].
+    destruct args as [|e2 args], args' as [|e2' args']; try discriminate; [assumption|].
+    eapply Hbool; eassumption.
+  - (* comp *)
+    intros bvs gens gens' elt elt' s mu C r Hv HA H.
+    change (S n + K)%nat with (S (n + K)). rewrite comp_S in *. unfold comp_body in *.
+    destruct gens as [|[p it] gs], gens' as [|[p' it'] gs']; try discriminate Hv.
+    + cbn [vgens] in Hv. repeat vstep Hev Hevs Hevo HA n.
+    + cbn [vgens] in Hv. more_eq.
+      vstep Hev Hevs Hevo HA n.
+      destruct (as_list m v) as [[l vs]| |]; cbn [rbind] in *; try discriminate.
+      eapply Hcl; try eassumption.
+      eapply A_incl; [exact HA|]. intros z Hz. apply in_or_app. right. exact Hz.
+  - (* comp_loop *)
+    intros bvs p gs gs' elt elt' s mu C l i r Hv HA H.
+    change (S n + K)%nat with (S (n + K)). rewrite comp_loop_S in *. unfold comp_loop_body in *.
+    destruct (store_get mu l) as [vs|]; [|discriminate].
+    destruct (nth_error vs i) as [x|]; [|exact H].
+    destruct (bind_pat p x s) as [s'|] eqn:B; cbn [lift rbind] in *; [|discriminate].
+    assert (HA' : A (pvars p ++ bvs) s' C).
+    { eapply A_incl; [eapply A_bind; eassumption|].
+      intros z Hz. apply in_app_or in Hz. destruct Hz as [Hz|Hz]; [apply in_or_app; left; exact Hz | exact Hz]. }
+    destruct (rbind_ok _ _ _ _ _ H) as ([r1 m1] & E1 & H1). clear H.
+    rewrite (Hcomp _ gs gs' elt elt' s' mu C _ Hv HA' E1). cbn [rbind].
+    destruct (rbind_ok _ _ _ _ _ H1) as ([r2 m2] & E2 & H2). clear H1.
+    rewrite (Hcl bvs p gs gs' elt elt' s' m1 C l (S i) _ Hv HA' E2). cbn [rbind]. exact H2.
+Qed.
+
+Lemma vx_all : forall n, vx_at n.
+Proof.
+  induction n as [|n IH]; [|apply vx_step; exact IH].
+  unfold vx_at. repeat split; intros; discriminate.
+Qed.
+
+Lemma vexpr_sound : forall n bvs e e' s mu C r, vx bvs e e' = true -> A bvs s C ->
+  eval N P n s mu C e = ROk r -> eval N P (n + K) s mu C e' = ROk r.
+Proof. intros n. destruct (vx_all n) as (Hk & _). exact Hk. Qed.
+
+Lemma vexprs_sound : forall n bvs es es' s mu C r, vxs bvs es es' = true -> A bvs s C ->
+  evals N P n s mu C es = ROk r -> evals N P (n + K) s mu C es' = ROk r.
+Proof. intros n. destruct (vx_all n) as (_ & Hk & _). exact Hk. Qed.
+
 End VX.
